@@ -21,6 +21,10 @@ type Engine struct {
 	Fold      map[*ssa.Global]*ssa.Const
 	FoldFacts []string
 	InlinePkg *ssa.Package // additional package whose functions are inlined (ztest for C20)
+	// NoExpand: functions whose boolean / nil-able results stay opaque predicates in reaching conditions (the role
+	// functions: send, isClosed, close - their answer depends on the run, and the rules speak about them by name).
+	NoExpand map[*ssa.Function]bool
+	simple   map[*ssa.Function]bool
 }
 
 func newEngine(p *Program) *Engine {
@@ -48,6 +52,7 @@ type Ctx struct {
 
 	blockCond map[*ssa.BasicBlock]DNF
 	condErr   error
+	condBusy  bool
 	kids      map[ssa.Instruction]map[*ssa.Function]*Ctx
 }
 
@@ -107,7 +112,7 @@ func (c *Ctx) calleeCtx(site ssa.Instruction, cc *ssa.CallCommon) *Ctx {
 // callResult: when the callee has exactly one live return, the idx-th result as a value of the callee context.
 func (c *Ctx) callResult(call *ssa.Call, idx int) (ssa.Value, *Ctx) {
 	k := c.calleeCtx(call, &call.Call)
-	if k == nil {
+	if k == nil || c.E.NoExpand[k.Fn] {
 		return nil, nil
 	}
 	conds, err := k.conds()
@@ -115,6 +120,10 @@ func (c *Ctx) callResult(call *ssa.Call, idx int) (ssa.Value, *Ctx) {
 		return nil, nil
 	}
 	var ret *ssa.Return
+	// For a pointer-typed result the identity of the object is what callers use (they dereference it), so returns that
+	// yield the nil constant for it do not count: "the one non-nil source" (a lookup helper returning (nil, "") when
+	// there is no entry, (entry, name) otherwise).
+	_, ptrResult := call.Call.Signature().Results().At(idx).Type().Underlying().(*types.Pointer)
 	for _, b := range k.Fn.Blocks {
 		if len(b.Instrs) == 0 {
 			continue
@@ -124,6 +133,9 @@ func (c *Ctx) callResult(call *ssa.Call, idx int) (ssa.Value, *Ctx) {
 			continue
 		}
 		if d, ok := conds[b]; !ok || d.isFalse() {
+			continue
+		}
+		if ptrResult && idx < len(r.Results) && isNilConst(r.Results[idx]) {
 			continue
 		}
 		if ret != nil {
@@ -1126,10 +1138,19 @@ func (c *Ctx) constLit(l Lit) (val bool, known bool) {
 	return false, false
 }
 
+var errCondBusy = fmt.Errorf("reaching conditions requested re-entrantly")
+
 func (c *Ctx) conds() (map[*ssa.BasicBlock]DNF, error) {
 	if c.blockCond != nil || c.condErr != nil {
 		return c.blockCond, c.condErr
 	}
+	if c.condBusy {
+		// asked while being computed (a helper's result expansion looked back at a value of this function): the
+		// caller treats the value as opaque; nothing is cached
+		return nil, errCondBusy
+	}
+	c.condBusy = true
+	defer func() { c.condBusy = false }()
 	defer func() {
 		if r := recover(); r != nil {
 			if _, ok := r.(dnfOverflow); ok {
@@ -1243,6 +1264,9 @@ func (c *Ctx) edgeCond(m map[*ssa.BasicBlock]DNF, p *ssa.BasicBlock, si int, pc 
 			return pc.and(d)
 		}
 	}
+	if d, ok := c.callResultDNF(v, neg); ok {
+		return pc.and(d)
+	}
 	e := pc
 	for _, l := range c.edgeLits(p, si) {
 		if val, known := c.constLit(l); known {
@@ -1254,6 +1278,137 @@ func (c *Ctx) edgeCond(m map[*ssa.BasicBlock]DNF, p *ssa.BasicBlock, si int, pc 
 		e = e.andLit(l)
 	}
 	return e
+}
+
+// simpleCallee: a package-local function without loops, channel operations or goroutines of its own, whose results are
+// therefore a function of the conditions on its return paths.
+func (e *Engine) simpleCallee(fn *ssa.Function) bool {
+	if e.simple == nil {
+		e.simple = map[*ssa.Function]bool{}
+	}
+	if v, ok := e.simple[fn]; ok {
+		return v
+	}
+	ok := fn.Blocks != nil && len(naturalLoops(fn)) == 0
+	for _, b := range fn.Blocks {
+		for _, in := range b.Instrs {
+			switch x := in.(type) {
+			case *ssa.Select, *ssa.Send, *ssa.Go:
+				ok = false
+			case *ssa.UnOp:
+				if x.Op == token.ARROW {
+					ok = false
+				}
+			case *ssa.Defer:
+				if _, isClosure := x.Call.Value.(*ssa.MakeClosure); isClosure {
+					ok = false // a deferred closure may rewrite named results
+				}
+			}
+		}
+	}
+	e.simple[fn] = ok
+	return ok
+}
+
+// callResultDNF: a branch on a boolean result, or on a nil test of a result, of a simple package-local helper is
+// expressed through the helper's own return conditions (result == OR_i return_i ∧ value_i), so that splitting a
+// function into helpers returning (value, ok) keeps the meaning of the caller's tests. v is the (NOT-stripped) branch
+// value, neg asks for its negation.
+func (c *Ctx) callResultDNF(v ssa.Value, neg bool) (d DNF, ok bool) {
+	defer func() {
+		if r := recover(); r != nil {
+			if _, isOv := r.(dnfOverflow); isOv {
+				d, ok = nil, false
+				return
+			}
+			panic(r)
+		}
+	}()
+	var subject ssa.Value
+	nilTest := false
+	switch x := v.(type) {
+	case *ssa.BinOp:
+		if x.Op != token.EQL && x.Op != token.NEQ {
+			return nil, false
+		}
+		switch {
+		case isNilConst(x.Y):
+			subject = x.X
+		case isNilConst(x.X):
+			subject = x.Y
+		default:
+			return nil, false
+		}
+		nilTest = true
+		if x.Op == token.NEQ {
+			neg = !neg
+		}
+	default:
+		if !isBoolType(v.Type()) {
+			return nil, false
+		}
+		subject = v
+	}
+	rv, rc := c.resolve(subject)
+	var call *ssa.Call
+	switch x := rv.(type) {
+	case *ssa.Call:
+		call = x
+	case *ssa.Extract:
+		call, _ = x.Tuple.(*ssa.Call)
+	}
+	if call == nil {
+		return nil, false
+	}
+	cal := rc.calleeOf(&call.Call)
+	if cal == nil || c.E.NoExpand[cal] || !c.E.simpleCallee(cal) || rc.calleeCtx(call, &call.Call) == nil {
+		return nil, false
+	}
+	edges := valueEdges(rc, rv, dnfTrue())
+	if len(edges) == 0 || len(edges) > 16 {
+		return nil, false
+	}
+	for _, e := range edges {
+		known, truth := false, false
+		ev := e.V
+		if nilTest {
+			if isNilConst(ev) {
+				known, truth = true, true
+			}
+			switch ev.(type) {
+			case *ssa.Alloc, *ssa.MakeInterface, *ssa.MakeClosure, *ssa.MakeMap, *ssa.MakeSlice, *ssa.MakeChan:
+				known, truth = true, false
+			}
+		} else if k, isK := ev.(*ssa.Const); isK && k.Value != nil && k.Value.Kind() == constant.Bool {
+			known, truth = true, constant.BoolVal(k.Value)
+		}
+		if known {
+			if truth != neg {
+				d = d.or(e.Cond)
+			}
+			continue
+		}
+		var l Lit
+		if nilTest {
+			l = Lit{A: &Atom{Kind: AkNil, Subj: e.Ctx.path(ev), V: ev, Ctx: e.Ctx}, Neg: neg}
+		} else {
+			l = e.Ctx.lit(ev)
+			if neg {
+				l.Neg = !l.Neg
+			}
+			if val, kn := e.Ctx.constLit(l); kn {
+				if val {
+					d = d.or(e.Cond)
+				}
+				continue
+			}
+		}
+		d = d.or(e.Cond.andLit(l))
+	}
+	if d == nil {
+		d = dnfFalse()
+	}
+	return d, true
 }
 
 // phiDNF: absolute condition "control reached ph's block and ph has value !neg".
@@ -1280,11 +1435,14 @@ func (c *Ctx) phiDNF(m map[*ssa.BasicBlock]DNF, ph *ssa.Phi, neg bool, depth int
 			}
 		}
 		ev := ph.Edges[i]
+		neg2 := false
 		if ph2, isPhi := ev.(*ssa.Phi); isPhi && isBoolType(ph2.Type()) && (ph2.Block() == pred || ph2.Block().Dominates(pred)) {
 			sub, ok := c.phiDNF(m, ph2, neg, depth+1)
 			if !ok {
 				return nil, false
 			}
+			e = e.and(sub)
+		} else if sub, ok := c.callResultDNF(stripNot(ev, &neg2), neg2 != neg); ok {
 			e = e.and(sub)
 		} else {
 			l := c.lit(ev)
@@ -1302,6 +1460,18 @@ func (c *Ctx) phiDNF(m map[*ssa.BasicBlock]DNF, ph *ssa.Phi, neg bool, depth int
 		d = d.or(e)
 	}
 	return d, true
+}
+
+// stripNot removes leading boolean negations, flipping *neg for each.
+func stripNot(v ssa.Value, neg *bool) ssa.Value {
+	for {
+		if u, ok := v.(*ssa.UnOp); ok && u.Op == token.NOT {
+			*neg = !*neg
+			v = u.X
+			continue
+		}
+		return v
+	}
 }
 
 // condPhi reports whether block b ends in a branch on a boolean phi.
